@@ -115,6 +115,27 @@ pub fn run_pass(device: &mut Device) -> anyhow::Result<()> {
                     }
                 }
 
+                // An int field gets an enum with a signed repr. Every value must be representable in it
+                if field.base_type == BaseType::Int {
+                    let repr_bits = field_bits.max(8).next_power_of_two();
+                    let repr_min = i128::MIN >> (128 - repr_bits);
+                    let repr_max = i128::MAX >> (128 - repr_bits);
+
+                    if let Some(unfit_variant) = seen_values
+                        .iter()
+                        .find(|(val, _)| *val < repr_min || *val > repr_max)
+                    {
+                        bail!(
+                            "The value of variant \"{}\" does not fit the i{repr_bits} representation of enum \"{}\" in object \"{}\" on field \"{}\": {} (min = {repr_min}, max = {repr_max})",
+                            unfit_variant.1,
+                            &ec.name,
+                            object_name,
+                            &field.name,
+                            unfit_variant.0
+                        )
+                    }
+                }
+
                 // Check whether the enum has more than one default
                 ensure!(
                     ec.variants.iter().filter(|v| v.value.is_default()).count() < 2,
